@@ -30,6 +30,7 @@ import (
 
 	"verif/harness/internal/engine"
 	"verif/harness/internal/ev"
+	"verif/harness/internal/loglevel"
 	"verif/harness/internal/vclock"
 )
 
@@ -39,6 +40,7 @@ const statsName = "TestWorkloads"
 
 func TestMain(m *testing.M) {
 	engine.Setup()
+	loglevel.Discard() // the logger variable is written once, here: cases only move the (atomic) global level
 	base := os.Getenv("VERIF_SCRATCH")
 	if base == "" {
 		base = os.TempDir()
@@ -741,6 +743,9 @@ func TestWorkloads(t *testing.T) {
 			Metrics:    rapid.Bool().Draw(t, "metrics"),
 			Reload:     rapid.Bool().Draw(t, "reload"),
 		}
+		level := loglevel.Gen().Draw(t, "log level")
+		r.Class("log level " + level)
+		defer loglevel.SetLevelOnly(level)()
 		r.Case()
 		r.Class("quota=" + w.Quota)
 		overlap, err := runWorkload(w)
